@@ -44,7 +44,21 @@ fn verdicts(bytes: &[u8], out: &mut CaseOut, origin: &str) -> Result<(bool, bool
             1 => cfg.to_config().clone(),
             _ => cfg.to_config_hist((h >> 8) as u8 & 0b11110),
         };
-        let w = wal::parse(bytes, &mc).map_err(|f| {
+        // ... and one case in eight goes through the file entry point
+        let via_file = (h >> 16) % 8 == 7;
+        let parsed = if via_file {
+            let path = std::env::temp_dir().join(format!("walrus-verif-c05-{}-{:?}.wasm", std::process::id(), std::thread::current().id()));
+            if std::fs::write(&path, bytes).is_ok() {
+                let r = crate::run::guard("parse", || mc.parse_file(&path).map_err(|e| format!("{:#}", e)));
+                let _ = std::fs::remove_file(&path);
+                r
+            } else {
+                wal::parse(bytes, &mc)
+            }
+        } else {
+            wal::parse(bytes, &mc)
+        };
+        let w = parsed.map_err(|f| {
             Failure::new(
                 f.signature.clone(),
                 format!("{} [stable={} {} {} bytes]", f.detail, stable, origin, bytes.len()),
